@@ -41,7 +41,11 @@ ASSUMPTIONS = [
 ]
 EXHAUSTIVE = {'quick': True, 'thorough': True}
 MAXTASKS = 6      # recycle workers: gmpy2 leaks a little per context switch, which adds up over 10^8 roundings
-FLOORS = {'tie': 0.01, 'overflow': 0.01, 'special': 0.005, 'nondyadic': 0.05, 'raises': 0.0005}
+FLOORS = {
+    'quick': {'tie': 0.01, 'overflow': 0.01, 'special': 0.005, 'nondyadic': 0.05, 'raises': 0.0005},
+    # thorough runs the round_at / round_integer / exact entry points on every option variant, which dilutes the per-operand classes
+    'thorough': {'tie': 0.01, 'overflow': 0.01, 'special': 0.001, 'nondyadic': 0.02, 'raises': 0.0005},
+}
 
 
 # ---------------------------------------------------------------------------
